@@ -85,27 +85,31 @@ Record st := mkst {
   dead : bool;
   out : list item;            (* emitted messages, oldest first *)
   lk : bool;                  (* a user thread waits at the gate holding self.lock *)
-  ttl : bool                  (* transport thread blocked on that lock inside a handler *)
+  ttl : bool;                 (* transport thread blocked on that lock inside a handler *)
+  pend : bool                 (* v0 only: _parse_newkeys has signalled completion_event but not yet run
+                                 `in_kex = False; clear_to_send.set()` *)
 }.
 
-Definition init_st (keep : bool) : st := mkst Idle true false keep None [] false [] false false.
+Definition init_st (keep : bool) : st := mkst Idle true false keep None [] false [] false false false.
 
 Definition emit (s : st) (its : list item) : st :=
-  mkst (ph s) (cts s) (need s) (ka s) (ttw s) (uq s) (dead s) (out s ++ its) (lk s) (ttl s).
+  mkst (ph s) (cts s) (need s) (ka s) (ttw s) (uq s) (dead s) (out s ++ its) (lk s) (ttl s) (pend s).
 Definition set_uq (s : st) (q : list Z) : st :=
-  mkst (ph s) (cts s) (need s) (ka s) (ttw s) q (dead s) (out s) (lk s) (ttl s).
+  mkst (ph s) (cts s) (need s) (ka s) (ttw s) q (dead s) (out s) (lk s) (ttl s) (pend s).
 Definition set_phase (s : st) (p : phase) (c : bool) : st :=
-  mkst p c (need s) (ka s) (ttw s) (uq s) (dead s) (out s) (lk s) (ttl s).
+  mkst p c (need s) (ka s) (ttw s) (uq s) (dead s) (out s) (lk s) (ttl s) (pend s).
 Definition set_need (s : st) (n : bool) : st :=
-  mkst (ph s) (cts s) n (ka s) (ttw s) (uq s) (dead s) (out s) (lk s) (ttl s).
+  mkst (ph s) (cts s) n (ka s) (ttw s) (uq s) (dead s) (out s) (lk s) (ttl s) (pend s).
 Definition block (s : st) (its : list item) : st :=
-  mkst (ph s) (cts s) (need s) (ka s) (Some its) (uq s) (dead s) (out s) (lk s) (ttl s).
+  mkst (ph s) (cts s) (need s) (ka s) (Some its) (uq s) (dead s) (out s) (lk s) (ttl s) (pend s).
 Definition kill (s : st) : st :=
-  mkst (ph s) (cts s) (need s) (ka s) (ttw s) (uq s) true (out s) (lk s) (ttl s).
+  mkst (ph s) (cts s) (need s) (ka s) (ttw s) (uq s) true (out s) (lk s) (ttl s) (pend s).
 Definition set_lk (s : st) (l : bool) : st :=
-  mkst (ph s) (cts s) (need s) (ka s) (ttw s) (uq s) (dead s) (out s) l (ttl s).
+  mkst (ph s) (cts s) (need s) (ka s) (ttw s) (uq s) (dead s) (out s) l (ttl s) (pend s).
+Definition set_pend (s : st) (b : bool) : st :=
+  mkst (ph s) (cts s) (need s) (ka s) (ttw s) (uq s) (dead s) (out s) (lk s) (ttl s) b.
 Definition block_lock (s : st) : st :=
-  mkst (ph s) (cts s) (need s) (ka s) (ttw s) (uq s) (dead s) (out s) (lk s) true.
+  mkst (ph s) (cts s) (need s) (ka s) (ttw s) (uq s) (dead s) (out s) (lk s) true (pend s).
 
 (* _send_kex_init: clear the flag, in_kex, emit KEXINIT *)
 Definition kexinit (s : st) : st := emit (set_phase s SentKexinit false) [(20, OKex)].
@@ -118,7 +122,8 @@ Definition gate_tt (s : st) (its : list item) : st := if cts s then emit s its e
 
 Definition is_nil {A} (l : list A) : bool := match l with [] => true | _ => false end.
 Definition user_ok (t : Z) : bool := negb ((t =? 20) || (t =? 21)).
-Definition tt_free (s : st) : bool := match ttw s with None => negb (ttl s) | Some _ => false end.
+Definition tt_free (s : st) : bool :=
+  match ttw s with None => negb (ttl s) && negb (pend s) | Some _ => false end.
 
 Inductive ev :=
 | UserSend (t : Z)        (* a user thread calls _send_user_message with a message of type t *)
@@ -129,9 +134,14 @@ Inductive ev :=
 | TtIter                  (* top of the run loop: need_rekey and not in_kex -> _send_kex_init *)
 | Recv (p : Z) (w : bool) (* the transport thread reads a message of type p; w = the handler takes its reply path *)
 | KeepTick                (* read timeout in the run loop: _check_keepalive *)
+| TtLate                  (* v0 only: the transport thread runs the tail of _parse_newkeys *)
 | Timeout.                (* clear_to_send_timeout passes for the blocked transport thread *)
 
-Definition recv (s : st) (p : Z) (w : bool) : st :=
+(* nka = "_parse_newkeys releases the gate atomically": in_kex := False and clear_to_send.set() in one
+   clear_to_send_lock section, completion_event signalled only after it (generated fact nk_atomic).
+   In the other variant (v0) completion is signalled first: renegotiate_keys returns, the application may start
+   the next exchange, and the transport thread's late clear_to_send.set() undoes that exchange's clear(). *)
+Definition recv (nka : bool) (s : st) (p : Z) (w : bool) : st :=
   if p =? 20 then                                   (* _negotiate_keys *)
     match ph s with
     | Idle => emit (set_phase s InKex false) [(20, OKex); (30, OKex)]
@@ -145,7 +155,9 @@ Definition recv (s : st) (p : Z) (w : bool) : st :=
     end
   else if p =? 21 then                              (* _parse_newkeys *)
     match ph s with
-    | SentNewkeys => set_need (set_phase s Idle true) false
+    | SentNewkeys =>
+        if nka then set_need (set_phase s Idle true) false
+        else set_pend (set_need (set_phase s Idle false) false) true
     | _ => s
     end
   else if needs_lock p && lk s then block_lock s     (* the handler's self.lock.acquire() *)
@@ -157,7 +169,7 @@ Definition recv (s : st) (p : Z) (w : bool) : st :=
     end
   else s.
 
-Definition step_gen (locked : bool) (s : st) (e : ev) : st :=
+Definition step_gen (locked nka : bool) (s : st) (e : ev) : st :=
   if dead s then s else
   match e with
   | UserSend t =>
@@ -177,7 +189,8 @@ Definition step_gen (locked : bool) (s : st) (e : ev) : st :=
   | Threshold => set_need s true
   | Timeout => match ttw s with Some _ => kill s | None => s end
   | TtIter => if tt_free s then (if need s && is_idle (ph s) then kexinit s else s) else s
-  | Recv p w => if tt_free s then recv s p w else s
+  | Recv p w => if tt_free s then recv nka s p w else s
+  | TtLate => if pend s then set_pend (set_phase s (ph s) true) false else s
   | KeepTick =>
       if tt_free s then
         (if ka s && negb (need s) then
@@ -190,10 +203,13 @@ Definition step_gen (locked : bool) (s : st) (e : ev) : st :=
       else s
   end.
 
-(* the working tree: locked sends exist iff the translator found one *)
-Definition step (s : st) (e : ev) : st := step_gen code_locked s e.
+(* v1: locked sends exist iff the translator found one; _parse_newkeys releases the gate atomically *)
+Definition step (s : st) (e : ev) : st := step_gen code_locked true s e.
 Definition run (s : st) (evs : list ev) : st := fold_left step evs s.
-Definition run_gen (locked : bool) (s : st) (evs : list ev) : st := fold_left (step_gen locked) evs s.
+Definition run_gen (locked nka : bool) (s : st) (evs : list ev) : st := fold_left (step_gen locked nka) evs s.
+(* the working tree as the translator sees it *)
+Definition step_tree (s : st) (e : ev) : st := step_gen code_locked nk_atomic s e.
+Definition run_tree (s : st) (evs : list ev) : st := fold_left step_tree evs s.
 
 (* the peer's half of an exchange, as seen by the transport thread, from each phase *)
 Definition complete (p : phase) : list ev :=
@@ -220,17 +236,23 @@ Definition quiet (e : ev) : bool :=
   end.
 
 (* ---- the cell the harness runs on the real code ------------------------------------- *)
-(* (initiation 0 = renegotiate_keys from a user thread / 1 = threshold picked up by the run loop,
+(* (initiation 0 = renegotiate_keys from a user thread / 1 = threshold picked up by the run loop / 2 = two
+    renegotiate_keys back to back, the second landing inside the first one's _parse_newkeys,
     in-flight type (0 = none), reply path taken, keepalive enabled and ticking during the exchange,
     the user operation performs its gated send while holding self.lock)
    -> [code; delivered]   code 3 = transport thread waits on a lock held by a user thread parked at the gate,
    2 = transport thread waits on the flag, 1 = a message >= 50 went out
    between KEXINIT and NEWKEYS, 0 = transparent; delivered = the queued user data went out after NEWKEYS *)
-Definition run_cell (c : Z * Z * bool * bool * bool) : list Z :=
-  let '(ini, p, w, keep, ul) := c in
-  let stp := step_gen ul in
+Definition run_cell (c : Z * Z * bool * bool * bool * bool) : list Z :=
+  let '(ini, p, w, keep, ul, nka) := c in
+  let stp := step_gen ul nka in
   let s0 := init_st keep in
-  let s1 := if ini =? 0 then stp s0 UserRekey else stp (stp s0 Threshold) TtIter in
+  let s1 :=
+    if ini =? 0 then stp s0 UserRekey
+    else if ini =? 1 then stp (stp s0 Threshold) TtIter
+    else (* 2: a whole exchange, then renegotiate_keys again as soon as the first call returns, i.e. after
+            completion was signalled, and only then the tail of _parse_newkeys *)
+      stp (stp (run_gen ul nka (stp s0 UserRekey) (complete SentKexinit)) UserRekey) TtLate in
   let s2 := stp s1 (if ul then UserSendLocked 94 else UserSend 94) in
   let s3 := if keep then stp s2 KeepTick else s2 in
   let s4 := if p =? 0 then s3 else stp s3 (Recv p w) in
@@ -240,7 +262,7 @@ Definition run_cell (c : Z * Z * bool * bool * bool) : list Z :=
   | None =>
       if negb (is_nil (offenders false (out s4))) then [1; 0]
       else
-        let s5 := run_gen ul s4 (complete (ph s4) ++ [UserWake]) in
+        let s5 := run_gen ul nka s4 (complete (ph s4) ++ [TtLate; UserWake]) in
         [0; if is_idle (ph s5) && cts s5 && is_nil (uq s5) && existsb (fun it => fst it =? 94) (out s5)
             then 1 else 0]
   end.
